@@ -365,6 +365,8 @@ def coq_properties(res, pid, extra=None, timeout=1800):
     property file itself to capture what Print Assumptions says.  Records
     obligations/discharged/trusted_base in the evidence.  Returns True when
     every obligation checked."""
+    res.cov.setdefault("obligations", 0); res.cov.setdefault("discharged", 0)
+    res.cov.setdefault("trusted_base", []); res.cov.setdefault("checker_cmd", "hygiene gate")
     bad = hygiene_gate()
     if bad:
         res.cov["hygiene"] = bad[:10]
